@@ -48,6 +48,8 @@ type closureInfo struct {
 }
 
 type VC struct {
+	replayOK bool          // the function's inputs can be set up by a generated test
+	replayIn []replayInput // its input locations (entry state)
 	embTerms []Term // addresses of embedded parts seen so far (never equal to a fresh object)
 	reachDef map[Term]Term // named merge conditions: name -> (or path1 path2 ...)
 	eng      *Engine
